@@ -63,9 +63,11 @@ def run_mst(case):
         g[labs[u]].append((labs[v], w))
         if u != v or case.get("double_self_loops"):
             g[labs[v]].append((labs[u], w))
-    for st in case.get("starts", [None]):
+    for k, st in enumerate(case.get("starts", [None])):
         try:
-            r = mst.prim(g, start=labs[st]) if st is not None else mst.prim(g)
+            # the signature admits any Iterable of (neighbour, weight): every other call hands over one-shot iterators / tuples
+            gg = g if k % 3 == 0 else ({a: iter(list(b)) for a, b in g.items()} if k % 3 == 1 else {a: tuple(b) for a, b in g.items()})
+            r = mst.prim(gg, start=labs[st]) if st is not None else mst.prim(gg)
             events.append(ret("prim", r, False, lambda a: ids[a]))
         except Exception as ex:  # noqa: BLE001
             events.append({"e": "raise", "solver": "prim", "what": type(ex).__name__})
